@@ -49,6 +49,8 @@ def make_profile(prop, rng, tier):
     p['stale_p'] = 0.0
     p['list_w'] = rng.choice([1, 1, 3, 6])       # some programs address wells mostly by lists
     p['shadow'] = rng.random() < 0.12            # a second Recipe object receives the same calls, interleaved
+    p['p_trace'] = rng.choice([0.03, 0.03, 0.4])    # some programs work with trace components (nanomolar and below)
+    p['allow_rename'] = prop in ('C09', 'C15', 'C17') and rng.random() < 0.3
     p['same_plate_p'] = 0.35
     lo, hi = p['steps']
     if tier == 'thorough':
